@@ -858,14 +858,7 @@ func coAssigned(r *Report, rule string, primary *types.Var, partners []*types.Va
 			r.Fn(f)
 			for _, pv := range partners {
 				key := fmt.Sprintf("%s/store(%s)-then-store(%s)", fname(f), primary.Name(), pv.Name())
-				exits := exitsAvoiding(st, func(i ssa.Instruction) bool {
-					s2, ok := i.(*ssa.Store)
-					if !ok {
-						return false
-					}
-					fa2, ok := s2.Addr.(*ssa.FieldAddr)
-					return ok && fieldVar(fa2) == pv
-				}, false)
+				exits := exitsAvoiding(st, func(i ssa.Instruction) bool { return storesFieldOrCallsSetter(i, pv, 0) }, false)
 				if len(exits) == 0 {
 					r.Ok(rule, key, st.Pos(), "%s is reassigned together with %s on every path", pv.Name(), primary.Name())
 				} else {
@@ -875,6 +868,30 @@ func coAssigned(r *Report, rule string, primary *types.Var, partners []*types.Va
 		})
 	}
 	return n
+}
+
+// storesFieldOrCallsSetter: the instruction stores to field fv, or calls a function of the module that does so on
+// every path (clearMetadataBitmap(t)).
+func storesFieldOrCallsSetter(i ssa.Instruction, fv *types.Var, d int) bool {
+	if s2, ok := i.(*ssa.Store); ok {
+		fa2, ok := s2.Addr.(*ssa.FieldAddr)
+		return ok && fieldVar(fa2) == fv
+	}
+	c, ok := i.(*ssa.Call)
+	if !ok || c.Call.IsInvoke() || d > 2 {
+		return false
+	}
+	h := c.Call.StaticCallee()
+	if h == nil || h.Blocks == nil || !strings.HasPrefix(funcPkgPath(h), modPath) || h == i.Parent() {
+		return false
+	}
+	isRet := func(in ssa.Instruction) bool { _, ok := in.(*ssa.Return); return ok }
+	has := anyInstr(h, func(in ssa.Instruction) bool { return storesFieldOrCallsSetter(in, fv, d+1) }) != nil
+	if !has {
+		return false
+	}
+	_, reached := pathsMissingAt(h.Blocks[0], 0, -1, isRet, func(in ssa.Instruction) bool { return storesFieldOrCallsSetter(in, fv, d+1) }, nil, nil)
+	return reached == 0
 }
 
 func constantInt64(c *types.Const) (int64, bool) {
